@@ -1,3 +1,5 @@
+import Sx.Lemmas.TxObs
+import Sx.Lemmas.RunP
 import Sx.Lemmas.TxSteps
 import Sx.Lemmas.TxCovers
 import Sx.Sys
@@ -485,5 +487,44 @@ example : txR {} (.rread 0x3f) (.u8 (.ok 0x40)) { irq := 0x40 } ∧
   · unfold txR txRLive
     simp only [Bool.false_eq_true, or_self, ↓reduceIte]
     exact ⟨1, rfl, by decide, by decide, fun _ => by decide, fun h => absurd rfl h⟩
+
+/-- **C04 on the chip model, as observed.** `C04_step_on_chip` with the callbacks the observation
+    shows (either build, any in-call schedule of the modulator, any failing transfers, no
+    application reaction): exactly what the invocation added to the ghost's list — nothing while
+    the frame is still being handed over, the one transmit callback when the chip reports
+    completion. -/
+theorem C04_step_on_chip_obs (n0 : Nat) (F : List UInt8) (c : SysCfg) (hnr : c.NoReact) (s : Sys) (h : Handle) (g : TxG)
+    (hr : TxRunning n0 F c s h g) (sched : List (Nat × Env)) (faults : List (Nat × Code))
+    (hsched : ∀ e ∈ sched, e.2 = .txShift ∨ e.2 = .txSent) :
+    match s.step c (.api .irq sched faults) with
+    | (s', .ret _ cbs _) => ∃ h' g', s'.handle = some h' ∧ TxPost F h g g' h' ∧ g'.cbs = g.cbs ++ cbs.map (·.ev)
+    | (_, .ub _) => True
+    | (_, _) => False := by
+  unfold Sys.step
+  dsimp only
+  rw [if_neg (by simp [hr.handle])]
+  have hw0 : txAbs n0 c.cached (opWorld s.world sched faults s.world.cache) g ∧
+      CbsTie txK g.cbs (opWorld s.world sched faults s.world.cache) g :=
+    ⟨Or.inr (Or.inr ⟨hr.chip, hsched, hr.cache⟩), Or.inr (by show g.cbs = g.cbs ++ _; simp [opWorld])⟩
+  simp only [hr.handle, Option.getD_some]
+  unfold exec
+  rw [onCb_noReact' hnr]
+  generalize hout : execG c.toCfg.cached logCb (Api.prog c.cap c.fuel Api.irq h) _ = out
+  have hex : OutcomeP (fun w g' => txAbs n0 c.cached w g' ∧ CbsTie txK g.cbs w g') (fun g' rh => TxPost F h g g' rh.2) out := by
+    rw [← hout]
+    exact execG_gwp' txE c.cached logCb _
+      (covers_cbs txE txK c.cached logCb (txAbs n0 c.cached) (tx_covers n0 c.cached _) (fun e h w h' w' ho => by cases ho; rfl) g.cbs)
+      (Api.prog c.cap c.fuel .irq h) g _ (tx_api_irq c.cap c.fuel F h g hr.st hr.modem hr.mode hr.live hr.cons hr.handed) _ hw0
+  cases out with
+  | ub u w => trivial
+  | done rh w =>
+    obtain ⟨r, h'⟩ := rh
+    obtain ⟨g', ⟨_, htie⟩, hpost⟩ := hex
+    refine ⟨h', g', rfl, hpost, ?_⟩
+    rcases htie with hb | ht
+    · have hb' : g'.poison = true := hb
+      rw [hpost.1] at hb'; cases hb'
+    · have ht' : g'.cbs = g.cbs ++ (w.cbs.map (·.ev)).reverse := ht
+      rw [ht', List.map_reverse]
 
 end Sx
